@@ -470,3 +470,5 @@ _quick("C11", "C11_sharedfail", "a key of capacity 2: a plain holder keeps one s
 _quick("C09", "C09_twowriters", "two writers in Aof.PushLock, the harness as scheduler: right before the first writer acquires replGlock (vfLockHook) a second writer runs its whole PushLock if, and only if, the first no longer holds aofGlock; both records come out of the replication ring, and lie in the log file, in the order of their log positions", [], reach=["end", "serialised"], native=False)
 
 _quick("C04", "C04_window", "A holds, B is queued (symbolic priority flag and priority), A unlocks; a third client's LOCK (symbolic priority flag and priority) arrives between the release of the key's mutex and the wake-up pass (sent from inside the unlock's reply callback, which runs exactly there): unless its priority is strictly higher it must not be granted ahead of B", ["-witness", "1"], reach=["no-bypass"])
+
+_quick("C01", "C01_tombstone", "a key whose hold has ended and whose manager lives on through the wheel's reference; right before a new request acquires the manager's mutex (vfLockHook) the sweep retires the manager; the request is granted; a third request (Count 0, Timeout 0) must be refused and the holder's unlock accepted — for an ordinary key and for the key of 16 zero bytes", [], reach=["manager-lingers"], native=False)
